@@ -7,8 +7,9 @@ values.  TLC checks on the definitions: the fold step (FoldStep, SumStep),
 permutation invariance by adjacent transpositions, reshape/transpose
 invariance, additivity over splits and arbitrary two-block partitions,
 AVERAGE = SUM/COUNT | #DIV/0!, MIN/MAX = 0 on nothing numeric, first-error
-selection, the SUBTOTAL table and the SUMPRODUCT laws; every visited state is
-exported with the allowed result set of each function.
+selection, the SUBTOTAL table, the SUMPRODUCT laws, homogeneity in the unit
+of the numbers and totals of subtotals; every visited state is exported with
+the allowed result set of each function.
 
 Binding: every exported state becomes real ranges in an in-memory workbook
 (every h x w shape, the transposed twin, a permuted twin, the rotated twin
@@ -17,6 +18,14 @@ formulas =SUM(..), =AVERAGE(..), =MIN(..), =MAX(..), =COUNT(..),
 =SUBTOTAL(n, ..), =SUMPRODUCT(.., ..) are compiled and evaluated; the same
 matrices are also passed to the library functions directly.  The value
 returned by pycel must be a member of the allowed set exported by TLC.
+
+What a number cell is, on the code's side: a constant int or float, the
+result of a formula (law TwoLevel: subtotal formulas in cells, aggregated
+again), and -- for the library calls -- every Python type in which pycel's
+own functions leave numbers in cells (int, float, numpy integer, numpy
+float).  Numbers of other magnitudes come from law Homogeneous: the same
+range measured in a large unit (2^31, 10^10, 10^15) must give the allowed
+results times the unit (SUMPRODUCT: times the product of the two units).
 """
 import json
 import os
@@ -40,10 +49,11 @@ FINDING_SCALAR_BLANK = 'D44'
 
 
 # -- abstract value -> Python value -----------------------------------------
-def pyval(cell, rnd):
+def pyval(cell, rnd, unit=1):
+    """the cell as a Python value; numbers are counted in `unit`s (Homogeneous)"""
     tag = cell[0]
     if tag == 'N':
-        k = cell[1]
+        k = cell[1] * unit
         if k % SCALE == 0:
             n = k // SCALE
             return float(n) if rnd.random() < 0.3 else n
@@ -57,6 +67,29 @@ def pyval(cell, rnd):
     if tag == 'E':
         return cell[1]
     raise ValueError(cell)
+
+
+# units the ranges are re-measured in (law Homogeneous); every pool number
+# times a unit is still an integer or a half below 2^53, exact as a double
+UNITS = (2 ** 31, 10 ** 10, 10 ** 15)
+
+
+def scaled(allowed, factor):
+    """the allowed results of the range measured in a unit `factor` times as large"""
+    return [a if a[0] == 'E' else ['R', a[1] * factor, a[2]] for a in allowed]
+
+
+def as_numpy(val, rnd):
+    """a number the way pycel's numpy based functions (SUMPRODUCT, FACTDOUBLE,
+    the regression family) leave it in a cell"""
+    import numpy as np
+    if isinstance(val, bool) or rnd.random() < 0.25:
+        return val
+    if isinstance(val, int):
+        return np.int64(val)
+    if isinstance(val, float):
+        return np.float64(val)
+    return val
 
 
 def matches(got, allowed):
@@ -184,11 +217,48 @@ def check_vector(vec, seed, full):
     P = tuple(vals[i] for i in perm)
     for fn in FNS:
         judge(f'lib {fn} permuted', call(LIB[fn], (P,)), twin_allowed(vec, fn, False))
+    # the cells as numpy numbers: what formula cells computed by pycel's
+    # numpy based functions hold (the workbook below gets them from SUMPRODUCT)
+    h, w = shapes[rnd.randrange(len(shapes))]
+    nv = [as_numpy(x, rnd) for x in vals]
+    M = tuple(tuple(nv[r * w:(r + 1) * w]) for r in range(h))
+    Mrot = tuple(tuple((nv[1:] + nv[:1])[r * w:(r + 1) * w]) for r in range(h))
+    for fn in FNS:
+        judge(f'lib {fn} numpy numbers|{h}x{w}', call(LIB[fn], M), vec[KEY[fn]])
+    judge(f'lib SUMPRODUCT rot numpy numbers|{h}x{w}',
+          call(excellib.sumproduct, M, Mrot), vec['sprot'])
+    judge(f'lib SUMPRODUCT self numpy numbers|{h}x{w}',
+          call(excellib.sumproduct, M, M), vec['spself'])
+    # the range measured in large units (law Homogeneous)
+    unit, unit2 = rnd.choice(UNITS), rnd.choice(UNITS)
+    uvals = [pyval(c, rnd, unit) for c in cells]
+    urot = [pyval(c, rnd, unit2) for c in cells[1:] + cells[:1]]
+    M = tuple(tuple(uvals[r * w:(r + 1) * w]) for r in range(h))
+    Mrot = tuple(tuple(urot[r * w:(r + 1) * w]) for r in range(h))
+    units = dict(unit=unit, unit_rotated=unit2)
+    for fn in FNS:
+        judge(f'lib {fn} large unit|{h}x{w}', call(LIB[fn], M),
+              scaled(vec[KEY[fn]], 1 if fn == 'COUNT' else unit), units)
+    judge(f'lib SUMPRODUCT rot large unit|{h}x{w}', call(excellib.sumproduct, M, Mrot),
+          scaled(vec['sprot'], unit * unit2), units)
+    judge(f'lib SUMPRODUCT self large unit|{h}x{w}', call(excellib.sumproduct, M, M),
+          scaled(vec['spself'], unit * unit), units)
     if not full:
         return viol, known, ncase, keys, 0
 
     # ---- one workbook holding every twin ---------------------------------
     sh = Sheet()
+    # the range in large units, one shape (law Homogeneous)
+    ru, rv = sh.place(uvals, h, w), sh.place(urot, h, w)
+    RU, RV = ref(ru, 1, h, w), ref(rv, 1, h, w)
+    for fn in FNS:
+        sh.formula(f'={fn}({RU})', scaled(vec[KEY[fn]], 1 if fn == 'COUNT' else unit),
+                   f'{fn}(range in units of {unit})')
+    if n > 1:        # (1x1 ranges reach SUMPRODUCT as scalars: D44)
+        sh.formula(f'=SUMPRODUCT({RU},{RV})', scaled(vec['sprot'], unit * unit2),
+                   f'SUMPRODUCT(range in units of {unit},rotated in units of {unit2})')
+        sh.formula(f'=SUMPRODUCT({RU},{RU})', scaled(vec['spself'], unit * unit),
+                   f'SUMPRODUCT(range,range) in units of {unit}')
     for si, (h, w) in enumerate(shapes):
         r0 = sh.place(vals, h, w)
         R = ref(r0, 1, h, w)
@@ -238,6 +308,38 @@ def check_vector(vec, seed, full):
                 sh.formula(f'=SUM({top})+SUM({bot})', vec['sum'], f'SUM(top)+SUM(bottom){tag}')
                 sh.formula(f'=COUNT({top})+COUNT({bot})', vec['count'],
                            f'COUNT(top)+COUNT(bottom){tag}')
+            # totals of subtotals (law TwoLevel): the aggregates of the two
+            # blocks sit in two cells, which are aggregated again
+            def subtotals(fmt):
+                rs = sh.place([fmt.format(top, ref(ro, 1, k, w)),
+                               fmt.format(bot, ref(ro + k, 1, h - k, w))], 1, 2)
+                return ref(rs, 1, 1, 2)
+            producers = [('SUM', '=SUM({0})'), ('SUBTOTAL(9)', '=SUBTOTAL(9,{0})')]
+            if w > 1:    # (a 1x1 block reaches SUMPRODUCT as a scalar: D44)
+                producers += [('SUMPRODUCT(block,ones)', '=SUMPRODUCT({0},{1})'),
+                              ('SUMPRODUCT(ones,block)', '=SUMPRODUCT({1},{0})'),
+                              ('SUMPRODUCT(block)', '=SUMPRODUCT({0})')]
+            for name, fmt in producers:
+                # with errors: SUM's is the first one, SUMPRODUCT's any of its block
+                allowed = vec['sum'] if errfree or not name.startswith('SUMPRODUCT') \
+                    else vec['errs']
+                sub = subtotals(fmt)
+                sh.formula(f'=SUM({sub})', allowed, f'SUM of the {name}s of top,bottom{tag}')
+                if errfree:
+                    sh.formula(f'=COUNT({sub})', [['R', 2, 1]],
+                               f'COUNT of the {name}s of top,bottom{tag}')
+            if errfree:
+                counts = subtotals('=COUNT({0})')
+                sh.formula(f'=SUM({counts})', vec['count'],
+                           f'SUM of the COUNTs of top,bottom{tag}')
+                if all(any(c[0] == 'N' for c in part)
+                       for part in (cells[:k * w], cells[k * w:])):
+                    sh.formula(f'=MAX({subtotals("=MAX({0})")})', vec['max'],
+                               f'MAX of the MAXs of top,bottom{tag}')
+                    sh.formula(f'=MIN({subtotals("=MIN({0})")})', vec['min'],
+                               f'MIN of the MINs of top,bottom{tag}')
+                    sh.formula(f'=SUMPRODUCT({subtotals("=AVERAGE({0})")},{counts})',
+                               vec['sum'], f'SUMPRODUCT(AVERAGEs,COUNTs) of top,bottom{tag}')
         if w > 1:
             k = rnd.randrange(1, w)
             left, right = ref(r0, 1, h, k), ref(r0, 1 + k, h, w - k)
@@ -420,7 +522,11 @@ def run(tier, seed):
         coverage_actions={k: list(c) for k, c in res.coverage.items()},
         laws=['FoldStep', 'SumStep', 'PermInvariant', 'ReshapeInvariant', 'SplitAdditive',
               'PartitionAdditive', 'AverageLaw', 'MinMaxLaw', 'IgnoresNonNumeric',
-              'FirstErrorLaw', 'SubtotalLaw', 'SumProductLaw'],
+              'FirstErrorLaw', 'SubtotalLaw', 'SumProductLaw', 'Homogeneous', 'TwoLevel'],
+        units=list(UNITS),
+        number_cells=['int constant', 'float constant', 'numpy integer / numpy float '
+                      '(library calls)', 'result of a SUM / SUBTOTAL / SUMPRODUCT / COUNT / '
+                      'MAX / MIN / AVERAGE formula (workbooks, TwoLevel)'],
         unconstrained=['COUNT / SUBTOTAL(2) over a range holding an error value: the '
                        'count of numeric cells and the first error are both allowed',
                        'which error SUMPRODUCT returns when its ranges hold different '
